@@ -233,7 +233,10 @@ def gen_vars(rng, n):
             out.append([i, 1, 1])
         elif r < 0.7:
             out.append([i, 0, 0])
-        elif r < 0.78:
+        elif r < 0.74:
+            # a declared dtype that says something else than the bounds: the partition is by bounds
+            out.append(rng.choice([[i, 0, 1, "int01"], [i, rng.randint(-3, 0), rng.randint(2, 4), "boolB"]]))
+        elif r < 0.80:
             # the library's own integer variables: dtype="int" means bounds (-32768, 32767); the extremes are ordinary declared bounds
             out.append(rng.choice([[i, -32768, 32767, "int"], [i, -32768, rng.randint(-3, 5)], [i, -32767, 10], [i, rng.randint(-5, 0), 32767]]))
         else:
@@ -338,12 +341,19 @@ def run_rewrap(case, ctx, rng, vs):
         ctx.call("to_list", a.to_list)
 
 
+UDTYPES = {"int8": numpy.int8, "int16": numpy.int16, "uint8": numpy.uint8, "uint16": numpy.uint16, "uint32": numpy.uint32, "uint64": numpy.uint64}
 DTYPES = {"int": int, "int32": numpy.int32, "int64": numpy.int64, "float": float, "float32": numpy.float32}
 
 
 def run_case(case, ctx):
     rng = random.Random(case["seed"])
-    vs = [puan.variable(v[0], dtype="int") if len(v) > 3 else (ItemVar if rng.random() < 0.1 else puan.variable)(v[0], bounds=(v[1], v[2])) for v in case["vars"]]
+    def mkvar(v):
+        if v[3] == "int":
+            return puan.variable(v[0], dtype="int")
+        if v[3] == "int01":
+            return puan.variable(v[0], bounds=(0, 1), dtype="int")
+        return puan.variable(v[0], bounds=puan.Bounds(v[1], v[2]), dtype="bool")
+    vs = [mkvar(v) if len(v) > 3 else (ItemVar if rng.random() < 0.1 else puan.variable)(v[0], bounds=(v[1], v[2])) for v in case["vars"]]
     ids = [v.id for v in vs]
     kind = case["kind"]
     if kind == "rewrap":
@@ -375,11 +385,18 @@ def run_case(case, ctx):
             vv["unknown-id"] = 5
         dname = rng.choice(list(DTYPES))
         kw = {}
+        if rng.random() < 0.2:
+            # narrow / unsigned integer dtypes are integer dtypes too; only where every entry the statement asks for fits
+            dname = rng.choice(list(UDTYPES))
+            info = numpy.iinfo(UDTYPES[dname])
+            vv = {k: abs(v) if info.min == 0 else v for k, v in vv.items()}
+            if not all(info.min <= int(v.bounds.lower) <= info.max for v in vs) or not all(info.min <= x <= info.max for x in vv.values()):
+                dname = "int64"
         r = rng.random()
         if r < 0.3:
-            kw["default_value"] = rng.choice([lambda v: 7, lambda v: v.bounds.upper, lambda v: -1])
+            kw["default_value"] = (lambda v: 7) if dname in UDTYPES else rng.choice([lambda v: 7, lambda v: v.bounds.upper, lambda v: -1])
         if dname != "int64" or rng.random() < 0.5:
-            kw["dtype"] = DTYPES[dname]
+            kw["dtype"] = dict(DTYPES, **UDTYPES)[dname]
         ctx.call("construct", arr.construct, vv, **kw)
     elif kind in ("ifrom", "bfrom"):
         ctxt = ids
